@@ -408,6 +408,9 @@ func splitPeriod(mpd *m.MPD, a *asset, cfg *ResponseConfig, wTimes wrapTimes) er
 			case segmentNumber:
 				as.SegmentTemplate.PresentationTimeOffset = pto
 				segDur := int(*as.SegmentTemplate.Duration)
+				if (periodDur*timeScale)%segDur != 0 {
+					return fmt.Errorf("period duration %ds not a multiple of segment duration %d/%d", periodDur, segDur, timeScale)
+				}
 				// Segment numbers count from the configured startNumber (snr_), as in the single-period MPD
 				startNr := uint32(pNr*periodDur*timeScale/segDur + cfg.getStartNr())
 				as.SegmentTemplate.StartNumber = Ptr(startNr)
